@@ -134,6 +134,19 @@ CHECKS = {
             'Trusted: the harness model of add()/embedding and ref/dispatch.py; merging by model state is justified by '
             'asserting, in every state, that the structure of the real objects is a function of the model state.',
             'DESIGN.md section 5, C11'),
+    'C12': ('E3-thread-scheduler',
+            'stateless model checking of real threads: all schedules within a preemption bound at bytecode '
+            'granularity (sys.monitoring), each response compared with the sequential response',
+            'All 36 unordered pairs of 8 request kinds on two real threads under every schedule with <=1 preemption '
+            '(thorough: <=2), five triples with <=1 preemption and two quadruples with all completion orders; '
+            'scheduling points are all non-thread-local bytecode instructions of clastic, its generated chains and '
+            'the harness bodies; every thread must receive exactly the response its request gets alone (unique token '
+            'echoed through request object, URL parameters, provided values, dispatch state, redirect Location, error '
+            'text) and request ids must be pairwise distinct. Interference needs a specific interleaving, which is '
+            'exactly what bounded exhaustive scheduling enumerates.',
+            'Trusted: the scheduler (replay divergence is a hard error; one schedule is replayed twice per run); '
+            'werkzeug/stdlib execute atomically between points; PYTHONHASHSEED=0.',
+            'DESIGN.md section 5, C12'),
 }
 
 NOT_YET = 'check not built yet in this revision of /verif (planned: bounded exhaustive exploration, see DESIGN.md section 5)'
